@@ -206,6 +206,8 @@ C15_CloseMustSucceed == Step /\ E.act = "close" /\ Has(Pid) /\ Recoverable(Pid, 
 \* ------------------------------------------------------------------ beyond the listed properties
 \* Threshold{} reports the configured rule with the current total; ListVoters{} lists exactly the current
 \* members; Vote{id, voter} reports exactly the ballots ListVotes{} reports
+\* MemberChangedHook sent to the multisig by anybody but its group is refused (and, like every refused call, changes nothing)
+X3_HookCallRefused == Step /\ E.act = "hook" => ~Ok /\ props' = props /\ voters' = voters /\ gtotal' = gtotal /\ bal' = bal
 X3_ThresholdQuery == cfg.flavour \in {"fixed", "flex"} /\ qx.thrq.kind # "none" =>
   qx.thrq = [kind |-> cfg.thr.kind, weight |-> cfg.thr.weight, p |-> cfg.thr.p, q |-> cfg.thr.q, total |-> gtotal]
 X3_ListVoters == qx.thrq.kind # "none" => qx.lvoters = {[a |-> a, w |-> voters[a]] : a \in {x \in Addr : voters[x] >= 0}}
